@@ -448,6 +448,7 @@ fn run_history(w: &W, f: &FileModel, steps: u64, allow_faults: bool, allow_cut: 
     // … and then reading"; whether a *second* read without a new fetch returns the same slice again
     // or an error ("nothing fetched") is left open, so from the second read on both are accepted
     let mut reads_since_fetch = 0u32;
+    let mut last_region: Option<Region> = None;
     let mut log: Vec<serde_json::Value> = Vec::new();
     let mut prev_failed_read = false;
     let mut prev_iter_dropped = false;
@@ -463,7 +464,27 @@ fn run_history(w: &W, f: &FileModel, steps: u64, allow_faults: bool, allow_cut: 
         let step = this_step;
         // ---- fetch part
         let nrec = f.recs.len();
-        let fop = match w.draw(10) {
+        let fop = match w.draw(11) {
+            // a request related to the previous one: adjacent, same start, one base further, or
+            // the same interval on the next record
+            10 => match last_region {
+                Some(p) => {
+                    let len = f.recs[p.rid].seq.len() as u64;
+                    w.probe("request_related_to_previous");
+                    match w.draw(5) {
+                        0 => FetchOp::Name(p.rid, p.e.min(len), (p.e + w.draw(6)).min(len)),
+                        1 => FetchOp::Rid(p.rid, p.s.min(len), (p.s + w.draw(8)).min(len).max(p.s.min(len))),
+                        2 => FetchOp::Name(p.rid, (p.e + 1).min(len), len),
+                        3 => {
+                            let r2 = (p.rid + 1) % nrec;
+                            let l2 = f.recs[r2].seq.len() as u64;
+                            FetchOp::Rid(r2, p.s.min(l2), p.e.min(l2).max(p.s.min(l2)))
+                        }
+                        _ => FetchOp::Name(p.rid, p.s.saturating_sub(1).min(len), p.e.min(len).max(p.s.saturating_sub(1).min(len))),
+                    }
+                }
+                None => FetchOp::Keep,
+            },
             0..=2 => {
                 let r = w.draw(nrec as u64) as usize;
                 let (s, e, _) = gen_interval(w, f.recs[r].seq.len() as u64, f.recs[r].line_bases);
@@ -539,6 +560,9 @@ fn run_history(w: &W, f: &FileModel, steps: u64, allow_faults: bool, allow_cut: 
                 (Ok(()), Some(r)) => {
                     st = Fetched::Region(r);
                     reads_since_fetch = 0;
+                    if r.s <= r.e && r.e <= f.recs[r.rid].seq.len() as u64 {
+                        last_region = Some(r);
+                    }
                 }
                 (Err(e), Some(r)) => {
                     // fetch of an existing record: only an invalid interval may be refused here
@@ -1185,7 +1209,7 @@ pub fn property() -> Property {
         expected_probes: &[
             "read_boundary_before_terminator", "read_boundary_inside_crlf", "line_longer_than_iterator_buffer", "line_longer_than_bufreader",
             "start_on_line_boundary", "stop_on_line_boundary", "empty_interval_read", "iterator_dropped_half_way", "operation_after_dropped_iterator",
-            "read_after_failed_read", "re_read_without_new_fetch", "exact_read_after_failed_operation", "operation_failed_by_injected_fault", "cut_inside_requested_range",
+            "read_after_failed_read", "request_related_to_previous", "re_read_without_new_fetch", "exact_read_after_failed_operation", "operation_failed_by_injected_fault", "cut_inside_requested_range",
             "cut_after_requested_range", "cut_inside_terminator_after_range", "short_file_reported_as_error", "fetch_rejected_unknown_target",
             "file_without_final_terminator", "empty_record", "fai_rows_not_in_file_order", "magic_size_run", "large_regime", "many_records_regime", "huge_regime", "offsets_beyond_4gib", "allpairs_sweep", "all_partitions_sweep",
         ],
